@@ -17,11 +17,19 @@ def db_story(game, rng):
 
 def walk(ck, name, cfg, episodes, coq_in):
     rng = ck.rng
-    cfg = copy.deepcopy(cfg)
-    mx = cfg["game"]["max_episode_length"] = rng.choice([5, 8, 13, 21])
-    ctx = {"scenario": name, "max_episode_length": mx, "ops": []}
+    scheduled = isinstance(cfg, str)          # a folder with schedule.yaml: the environment cycles through its episodes
+    if not scheduled:
+        cfg = copy.deepcopy(cfg)
+        mx = cfg["game"]["max_episode_length"] = rng.choice([5, 8, 13, 21])
+    ctx = {"scenario": name, "ops": []}
     try:
-        env = world.make_env(cfg)
+        if scheduled:
+            from primaite.session.environment import PrimaiteGymEnv
+            env = PrimaiteGymEnv(env_config=cfg)
+            mx = env.game.options.max_episode_length
+        else:
+            env = world.make_env(cfg)
+        ctx["max_episode_length"] = mx
     except Exception as e:
         ck.violation("environment-construction-raises:%s" % type(e).__name__, "%s: constructing the environment raised %r" % (name, e), ctx)
         return
@@ -41,8 +49,8 @@ def walk(ck, name, cfg, episodes, coq_in):
     del obswalk.PENDING[:]
     for ep in range(episodes):
         # how this episode ends: at the limit, abandoned mid-way, or stepped past the limit
-        kind = rng.choice(["to-limit", "abandoned", "abandoned", "past-limit"])
-        length = mx if kind == "to-limit" else rng.randint(1, mx - 1) if kind == "abandoned" else mx + rng.randint(1, 3)
+        kind = rng.choice(["to-limit", "abandoned", "abandoned", "past-limit"]) if not scheduled else "abandoned"
+        length = mx if kind == "to-limit" else rng.randint(1, min(mx - 1, 4 if scheduled else mx)) if kind == "abandoned" else mx + rng.randint(1, 3)
         for t in range(length):
             game = env.game
             inv = world.inventory(game.simulation)
@@ -108,9 +116,12 @@ def walk(ck, name, cfg, episodes, coq_in):
         if g.step_counter != 0 or any(len(a.history) for a in g.agents.values()) or env.agent.reward_function.total_reward != 0:
             ck.violation("reset-not-clean", "%s: after reset tick=%d, history lengths %s, total reward %r"
                          % (name, g.step_counter, [len(a.history) for a in g.agents.values()], env.agent.reward_function.total_reward), dict(ctx, episode=ep))
-        if len(g.agents) != nag:
-            nag = len(g.agents)        # an episode-scheduled scenario may change the agent list: start a new model case
-            break
+        if len(g.agents) != nag or g.options.max_episode_length != mx:
+            # an episode-scheduled scenario may change the agent list / the maximum: close this model case, open a new one
+            coq_in.append(("(%d, %d, %s)" % (mx, nag, zl(ops)), out))
+            nag, mx = len(g.agents), g.options.max_episode_length
+            ops, out, ep0 = [], [], env.episode_counter
+            continue
         ops.append(Raw("Reset"))
         out += observe(0)
         ck.count("episode-end:%s" % kind)
@@ -136,6 +147,15 @@ def run(ck):
     for name, cfg in scen:
         for rep in range(4 if name.startswith("pkg/data") else 1):
             walk(ck, name, cfg, ck.n(6, 10), coq_in)
+    # episode-scheduled scenarios: through the whole schedule and well past its end (it loops)
+    import glob, os, yaml
+    for root in sorted(glob.glob(world.PKG + "/*/")) + sorted(glob.glob(world.ASSETS + "/*/")):
+        if not os.path.exists(os.path.join(root, "schedule.yaml")):
+            continue
+        if ck.quick and "uc7" in root:
+            continue
+        n_eps = len(yaml.safe_load(open(os.path.join(root, "schedule.yaml")))["schedule"])
+        walk(ck, os.path.relpath(root, world.REPO), root, n_eps + 4, coq_in)
     ck.traces += len(coq_in)
     try:
         mism = coq_cases(ck, "From PV Require Import Model.Episode.", "Episode.run_case", coq_in, name="c01", chunk=20)
